@@ -255,7 +255,18 @@ def r2(ck, F):
                     fb = F.body(cd)
         key = "get_default_slow without thread-local state (thread exit) falls back to the global default"
         if fb is None:
-            ck.bad("C02.R2", key, where(slow.raw["sp"]), "no fallback closure found for a failed thread-local access (shape not recognised)", fn=slow.path)
+            # the same fallback written as `match CURRENT_STATE.try_with(..) { Ok(r) => r, Err(_) => f(get_global()) }`
+            errp = []
+            for p in PathEval(slow).run():
+                if p.end == "return" and any(show(c[0]).startswith("discr(try_with(") and c[1] == 1 for c in p.conds):
+                    errp.append([c[1].get("path", "") for c in p.calls])
+            if errp and all(D + "get_global" in calls and D + "Dispatch::none" not in calls for calls in errp):
+                ck.ok("C02.R2", key, fn=slow.path)
+            elif errp:
+                ck.bad("C02.R2", key, where(slow.raw["sp"]), "on the AccessError edge the callback is handed %s: an emission made while the thread's locals are being "
+                       "destroyed is discarded whenever any other thread holds a scope" % sorted({c.rsplit("::", 1)[-1] for calls in errp for c in calls if c}), fn=slow.path)
+            else:
+                ck.bad("C02.R2", key, where(slow.raw["sp"]), "no fallback found for a failed thread-local access (shape not recognised)", fn=slow.path)
         else:
             calls = [t["callee"].get("path") for bb, t in fb.calls()]
             if D + "get_global" in calls and D + "Dispatch::none" not in calls:
@@ -276,7 +287,10 @@ def r2(ck, F):
     ok = len(rows) == 2 and len(fast) == 1 and len(slow) == 1
     if ok:
         # fast edge must be the `== 0` true edge of the SCOPED_COUNT load
-        ok = "load(" in fast[0][0] and "SCOPED_COUNT" in fast[0][0] and " Eq 0" in fast[0][0].replace("Eq 0)", " Eq 0") and fast[0][1] != 0
+        txt, val = fast[0]
+        zero_edge = (" Eq 0)" in txt and val != 0) or ((" Ne 0)" in txt or " Gt 0)" in txt) and val == 0) or (txt.startswith("(0 Lt ") and val == 0) or \
+            (txt.startswith("(0 Eq ") and val != 0) or (txt.startswith("(0 Ne ") and val == 0)
+        ok = "load(" in txt and "SCOPED_COUNT" in txt and zero_edge
     if ok:
         ck.ok("C02.R2", "fast path iff SCOPED_COUNT == 0", fn=gd.path, detail={str(k): v for k, v in rows.items()})
         ck.ok("C02.R2", "slow path otherwise", fn=gd.path)
@@ -292,6 +306,22 @@ def r3(ck, F):
     state_adt = D + "State"
     if not ck.anchor("C02.R3", "State", F.adts.get(state_adt)):
         return
+    # ... and private helpers that only those two reach (a few lines of set_default / the guard's drop moved into a function)
+    import re as _re
+    root_of = lambda pth: _re.sub(r"(::\{closure#\d+\})+$", "", pth)
+    base_roots = {root_of(a) for a in allowed}
+
+    def only_from_allowed(root, seen=()):
+        if root in base_roots:
+            return True
+        f = F.fns.get(root)
+        if f is None or f.get("vis") == "Public" or root in seen:
+            return False
+        cs = [x for x, _bb, _t in F.callers().get(root, [])] + [x for x in F.body_list if root in x.raw.get("inlined", [])]   # (virtually inlined helpers)
+        return bool(cs) and all(only_from_allowed(root_of(x.path), seen + (root,)) for x in cs)
+    for b in F.body_list:
+        if b.crate == "tracing_core" and b.path.startswith(D) and b.path not in allowed and only_from_allowed(root_of(b.path)):
+            allowed.add(b.path)
     n_reads = 0
     for b in F.body_list:
         if b.crate != "tracing_core":
@@ -608,6 +638,9 @@ def r6(ck, F, rid="C02.R6"):
             after = p.blocks[i + 1:]
             if p.end == "return" and returns_guard and p.ret is not None and any(k.rsplit("::", 1)[-1] in show(p.ret) for k in rest):
                 continue                # ownership of the flag moves to the caller inside the guard value
+            if p.end == "return" and returns_guard and p.ret is not None and "closure" in show(p.ret) and any(
+                    cl.locals and any(k in cl.locals[0] for k in rest) for cl in F.closures_of(b)):
+                continue                # `flag.replace(false).then(|| Guard(self))`: the guard is built by a closure of this function
             if any(x in gdrops for x in after):
                 # calls between the take and the guard's construction/drop must not unwind past it
                 continue
